@@ -1,0 +1,23 @@
+//go:build verif
+
+package pqmr
+
+// C18 (arbitrary bytes fed to an on-disk decoder never crash the server): the
+// persistent-query match file (.pqmr) and the rollup files store serialized bit
+// sets and have no checksum.  The bitset library allocates by the bit count at
+// the head of a serialized bit set, so a bit set reaches the library only when
+// that count is covered by the bytes that were read.  Checked by
+// /verif/bin/govc.  Comment-only file.
+//@ spec pqBe64(b []byte) uint64 = uint64(b[0])<<56 | uint64(b[1])<<48 | uint64(b[2])<<40 | uint64(b[3])<<32 | uint64(b[4])<<24 | uint64(b[5])<<16 | uint64(b[6])<<8 | uint64(b[7])
+//@ func BitsetFitsBuffer
+//@   props C18
+//@   pure
+//@   safe
+//@   ensures [fits-means-the-stored-bit-count-is-covered-by-the-bytes] implies(result, len(buf) >= 8 && pqBe64(buf[0:8]) <= uint64(len(buf) - 8) * 8)
+//@ end
+//@ func ReadPqmr
+//@   props C18
+//@   assumecalleerequires
+//@   site call bs.UnmarshalBinary #1:
+//@     assert [the-bitset-library-only-sees-a-bit-set-whose-count-fits] len(arg1) >= 8 && pqBe64(arg1[0:8]) <= uint64(len(arg1) - 8) * 8
+//@ end
